@@ -283,6 +283,27 @@ def de_rules(ctx, flavours):
                 if bb['term']['k'] == 'assert' and not bb['cleanup']:
                     bad.append('assert(%s)@%s' % (bb['term'].get('msg', '')[:20], bb['term']['sp']))
             out.append(Obl('DE2', b['q'], b['span'], 'no unwrap / expect / panic / indexing / arithmetic assert in the reader', not bad, 'none' if not bad else ', '.join(bad)))
+        # DE2-trans: nothing the reader can reach in this crate can panic on attacker-controlled data
+        reach = sorted(reader_reach(ctx, (fl,)))
+        for q in reach:
+            rb = F.bodies.get(q)
+            if rb is None or rb in [de, vs] + closures:
+                continue
+            bad = []
+            for bi, t in calls_in(rb):
+                c = callee_name(t)
+                if not (PANICKY.match(c) or PANICKY.match(t['callee'])):
+                    continue
+                if c.startswith('std::cell::RefCell::'):
+                    continue   # double borrows are G3's business
+                # unwrap of a LockResult (poisoning needs an earlier panic) is the locking idiom, not a data-dependent panic
+                if t['args'] and any(ty['k'] == 'adt' and ty['p'] == 'std::sync::PoisonError' for ty in F.ty_walk(rb['locals'][t['args'][0]['pl']['l']])) if t['args'] and t['args'][0].get('k') in ('move', 'copy') else False:
+                    continue
+                bad.append('%s@%s' % (c.split('::')[-1], t['sp']))
+            for bi, bb in enumerate(rb['blocks']):
+                if bb['term']['k'] == 'assert' and not bb['cleanup'] and re.search(r'Sub|Div|Rem|Shl|Shr|BoundsCheck|Neg', bb['term'].get('msg', '')):
+                    bad.append('assert(%s)@%s' % (bb['term'].get('msg', '')[:24], bb['term']['sp']))
+            out.append(Obl('DE2', q, rb['span'], 'reachable from the reader: no data-dependent panic site (unwrap/expect/index/truncate/split/arith underflow)', not bad, 'none' if not bad else ', '.join(bad)))
         # DE3: only insert/connect build the graph; arguments come from the document
         why = []
         allowed = {fl + '::Graph::new', fl + '::Graph::with_capacity', fl + '::Graph::insert', fl + '::Graph::get', fl + '::Graph::contains', fl + '::node::Node::new', fl + '::node::Node::connect', fl + '::node::Node::try_connect'}
@@ -341,18 +362,29 @@ def _exit_is_error(F, b, y):
 
 
 def reader_reach(ctx, flavours):
-    """crate-local functions reachable from deserialize / visit_seq (call graph incl. closures and trait impls std may call back)"""
-    F, G = ctx.F, ctx.G()
+    """crate-local functions reachable from deserialize / visit_seq through resolved calls and closures built on the way"""
+    F = ctx.F
     reach = set()
     for fl in flavours:
         dec, ser, de, vs = _serde_bodies(F, fl)
         st = [b['q'] for b in (de, vs) if b]
         while st:
             q = st.pop()
-            if q in reach:
+            if q in reach or q not in F.bodies:
                 continue
             reach.add(q)
-            st.extend(G.cg.get(q, ()))
+            b = F.bodies[q]
+            for bi, t in calls_in(b):
+                if t.get('local') and t.get('res') in F.bodies:
+                    st.append(t['res'])
+                for gi in t.get('gargs', []):
+                    for ty in F.ty_walk(gi):
+                        if ty['k'] == 'closure' and ty['p'] in F.bodies:
+                            st.append(ty['p'])
+            for bb in b['blocks']:
+                for s_ in bb['stmts']:
+                    if s_['k'] == 'assign' and s_['rv']['k'] == 'aggr' and s_['rv']['ak'].startswith('closure:'):
+                        st.append(s_['rv']['ak'][len('closure:'):])
     return reach
 
 
